@@ -23,6 +23,7 @@ import Proofs.C01.CapstoneCtor
 import Proofs.C01.Totality2
 import Proofs.C01.Tonelli
 import Proofs.C01.Sec2
+import Proofs.C01.Catalogue
 /-!
 # C01 — curve and field arithmetic compute exactly the group law (DESIGN.md §3 C01)
 
@@ -577,9 +578,9 @@ theorem ops_sub_hom_of_cofactor_one {p : ℕ} [Fact p.Prime] {C : Curve} (K : Cu
     OpsHom (opsSub K) (EC.ops C) (Subtype.val : SubPt p C → Point) := opsSub_hom K h34 hcof hΔ
 
 /-- a component of the endomorphism law, PROVED over any field: on `y² = x³ + b` (`a = 0`), for `β³ = 1`, the map
-`(x, y) ↦ (β·x, y)` is an ADDITIVE endomorphism of Mathlib's point group.  (`EndoLawEc` for secp256k1 additionally
-needs the Jacobian cast of `endoJac`, the numeric fact `φ(G) = λ•G` and the assembly on `⟨G⟩`: NOT proved, which
-is why the GLV ladder theorems are named `…_given_endo_law`.) -/
+`(x, y) ↦ (β·x, y)` is an ADDITIVE endomorphism of Mathlib's point group.  (One ingredient of `endo_law_secp256k1`
+below, which adds the Jacobian cast of `endoJac`, `φ(G) = λ•G` by kernel evaluation and the assembly on `⟨G⟩` —
+the whole curve, `secp256k1_generator_generates`; the `…_given_endo_law` forms remain for other carriers.) -/
 theorem glv_endomorphism_is_additive {F : Type} [Field F] [DecidableEq F] (b β : F) (hβ : β ^ 3 = 1)
     (P Q : (W0 b).Point) : endoPt b β hβ (P + Q) = endoPt b β hβ P + endoPt b β hβ Q := endoPt_add b β hβ P Q
 
@@ -597,8 +598,8 @@ theorem glv_phi_G_eq_lambda_G : phiS G0 = Gen.Curves.glv_LAM • G0 := phiS_G0
 
 /-- **`EndoLawEc` for secp256k1 on the subgroup `⟨G⟩` generated by the generator** (`HG = zmultiples G`): btclib's
 `K = (β·X mod p, Y, Z)` is a valid triple denoting `λ • P`, and `N` kills `⟨G⟩`.  No hypothesis: `p`, `n` prime (Pratt),
-`φ` additive (`glv_endomorphism_is_additive`), `φ(G) = λ•G` (kernel), hence `φ = λ•` on `⟨G⟩`.  (`⟨G⟩` is the whole
-`n`-torsion iff the cofactor is one — not proved; the `…_given_endo_law` forms remain for subgroups other than `⟨G⟩`.) -/
+`φ` additive (`glv_endomorphism_is_additive`), `φ(G) = λ•G` (kernel), hence `φ = λ•` on `⟨G⟩`.  (`⟨G⟩` is the whole curve:
+cofactor one is proved, `secp256k1_generator_generates`; the `…_given_endo_law` forms remain for other carriers.) -/
 theorem endo_law_secp256k1 : EndoLawEc secp_hp HG HG_noTwoTorsion := endoLaw_secp256k1
 
 /-- **`mult(m, Q)` on secp256k1 — the pure-Python route the library runs without the bindings (fixed base for `G`,
@@ -668,7 +669,8 @@ theorem sec_roundtrip_uncompressed (g : CurveGroup) (pSize : ℕ) (hybrid : Bool
     (hp : g.p ≤ 256 ^ pSize) (h : bytesFromPoint g pSize Q false = some b) :
     pointFromOctets g pSize hybrid b = .ok Q := pointFromOctets_bytesFromPoint_uncompressed g pSize hybrid Q b hp h
 
-/-- compressed forms (closed-form square-root branches; the compressed round trip is not proved): the answer has the
+/-- compressed forms, closed-form square-root branches, ANY modulus (superseded for prime fields by
+`sec_compressed_accepted_iff` / `sec_roundtrip_compressed` below): the answer has the
 `x` the octets name, is a reduced point of the curve, never `y = 0`, with the parity the prefix names -/
 theorem sec_compressed_sound (g : CurveGroup) (pSize : ℕ) (hybrid : Bool) (pfxB : UInt8) (body : Bytes)
     (Q : Point) (h23 : pfxB.toNat = 2 ∨ pfxB.toNat = 3) (hbr : g.p % 4 = 3 ∨ g.p % 8 = 5)
@@ -952,5 +954,101 @@ theorem sec_roundtrip_compressed {p : ℕ} [Fact p.Prime] (g : CurveGroup) (hg :
 example : pointFromOctets Toy.toyC.toCurveGroup 1 false [2, 2] = .ok (2, 12) := by decide +kernel
 example : pointFromOctets Toy.toyC.toCurveGroup 1 true [6, 2, 13] = .error .parity := by decide +kernel
 example : pointFromOctets Toy.toyC.toCurveGroup 1 true [7, 2, 13] = .error .offCurve := by decide +kernel
+
+/-! ## wave 6 — "for every catalogued curve" with NO primality hypothesis; secp256k1 with cofactor one PROVED
+
+`ForCatalogue P` : for every `d` of the catalogue REGENERATED from btclib's source (`Gen.Curves.catalogue`, 27 curves),
+`d.p` is prime, `d.n` is prime, `CurveOk` holds and `P` holds of it.  Primality by kernel-checked Pratt certificates,
+`n • G = ∞` by kernel evaluation of the proved ladder (Proofs/E2E/CatalogueOk.lean): a changed curve constant in btclib
+breaks these obligations. -/
+
+/-- every catalogued curve: `p` prime, `n` prime, `CurveOk` (odd `p`, odd `n`, generator reduced / on the curve / `≠ ∞`
+/ of order `n` in Mathlib's point group) -/
+theorem catalogue_ok_all : ∀ d ∈ Gen.Curves.catalogue,
+    ∃ hp : Nat.Prime d.p.toNat, Nat.Prime d.n.toNat ∧ @CurveOk d.p.toNat ⟨hp⟩ (Curve.ofData d) :=
+  Btc.C01.catalogue_ok
+
+example : Gen.Curves.catalogue.length = 27 := by decide
+
+/-- every catalogued curve: `Btc.EC.ops C` is a `LawfulGroup` (all laws but `lift_x`) on the `n`-torsion carrier -/
+theorem lawful_group_catalogue : ForCatalogue fun p _ C K =>
+    ∃ L : LawfulGroup (opsSub K) (Pt p C.toCurveGroup), ∀ P, L.abs P = absA p C.toCurveGroup P.1 :=
+  lawfulGroup_catalogue
+
+/-- every catalogued curve with `p ≡ 3 (mod 4)`: `Btc.EC.ops C` is `Lawful` -/
+theorem lawful_catalogue : ForCatalogue fun p _ C K => p % 4 = 3 →
+    ∃ L : Lawful (opsSub K) (Pt p C.toCurveGroup), ∀ P, L.abs P = absA p C.toCurveGroup P.1 :=
+  Btc.C01.lawful_catalogue
+
+/-- every catalogued curve but secp256k1 (which has `mult_entry_secp256k1_all`): `mult(m, Q, ec) = m • Q`, every
+integer `m`, every blind, every valid `Q` of the `n`-torsion, generator and infinity included -/
+theorem mult_entry_catalogue : ForCatalogue fun p _ C _ => (ctxOf C).isSecp = false →
+    ∀ (lam : ℤ), (lam : ZMod p) ≠ 0 → ∀ (m : ℤ) (Q A : Point), AValid p C.toCurveGroup Q →
+      C.n • absA p C.toCurveGroup Q = 0 → multEntry (ctxOf C) lam m Q = some A →
+      AValid p C.toCurveGroup A ∧ absA p C.toCurveGroup A = m • absA p C.toCurveGroup Q := multEntry_catalogue
+
+/-- every catalogued curve, secp256k1 included: `mult` ANSWERS on the generator and on every pair passing `is_on_curve` -/
+theorem mult_entry_answers_catalogue : ForCatalogue fun _ _ C _ =>
+    ∀ (lam m : ℤ) (Q : Point), (ctxOf C).eqAff Q (ctxOf C).G = true ∨ isOnCurveX C.toCurveGroup Q = some true →
+      ∃ A, multEntry (ctxOf C) lam m Q = some A := multEntry_answers_catalogue
+
+/-- every catalogued curve but secp256k1: `double_mult_var(u, H, v, Q) = u • H + v • Q` -/
+theorem double_mult_entry_catalogue : ForCatalogue fun p _ C _ => (ctxOf C).isSecp = false →
+    ∀ (u v : ℤ) (P Q A : Point), AValid p C.toCurveGroup P → C.n • absA p C.toCurveGroup P = 0 →
+      AValid p C.toCurveGroup Q → C.n • absA p C.toCurveGroup Q = 0 →
+      doubleMultEntry (ctxOf C) u P v Q = some A →
+      AValid p C.toCurveGroup A ∧
+        absA p C.toCurveGroup A = u • absA p C.toCurveGroup P + v • absA p C.toCurveGroup Q :=
+  doubleMultEntry_catalogue
+
+/-- every catalogued curve, secp256k1 included: `multi_mult_var = Σ sᵢ • Qᵢ` -/
+theorem multi_mult_entry_catalogue : ForCatalogue fun p _ C _ =>
+    ∀ (scalars : List ℤ) (points : List Point) (A : Point),
+      (∀ Q ∈ points, AValid p C.toCurveGroup Q ∧ C.n • absA p C.toCurveGroup Q = 0) →
+      multiMultEntry (ctxOf C) scalars points = some A →
+      AValid p C.toCurveGroup A ∧ absA p C.toCurveGroup A = lsum scalars (points.map (absA p C.toCurveGroup)) :=
+  multiMultEntry_catalogue
+
+/-- every catalogued curve: the reference `mult` the scheme drivers run is closed on the carrier and `= m • P` -/
+theorem ec_mult_catalogue : ForCatalogue fun p _ C _ => ∀ (m : ℤ) (P : Point), InSub p C P →
+    InSub p C ((EC.ops C).mul m P) ∧
+      absA p C.toCurveGroup ((EC.ops C).mul m P) = m • absA p C.toCurveGroup P := mul_catalogue
+
+section Secp256k1Unconditional
+open Btc.E2E
+
+/-- **secp256k1 has cofactor one**: every point of `y² = x³ + 7` over the secp256k1 field has order dividing `n`
+(`N ≤ 2p+1`, `n ∣ N`, `2p+1 < 3n`, no point of order 2: Proofs/E2E/CofactorOne.lean) -/
+theorem secp256k1_cofactor_one : ∀ g : Pt secp256k1_p cS, EC.secp256k1.n • g = 0 := secp_hcof
+
+/-- … so `⟨G⟩` is the whole curve: the membership hypothesis `∈ HG` of the `…_secp256k1` theorems holds of EVERY point -/
+theorem secp256k1_generator_generates (g : Pt secp256k1_p cS) : g ∈ HG := mem_HG g
+
+/-- `mult(m, Q)` on secp256k1's pure-Python route, EVERY valid `Q` (no subgroup hypothesis, no assumption at all) -/
+theorem mult_entry_secp256k1_all (lam : ℤ) (hlam : (lam : ZMod secp256k1_p) ≠ 0) (m : ℤ) (Q A : Point)
+    (hQ : AValid secp256k1_p cS Q) (h : multEntry (ctxOf EC.secp256k1) lam m Q = some A) :
+    AValid secp256k1_p cS A ∧ absA secp256k1_p cS A = m • absA secp256k1_p cS Q :=
+  multEntry_secp256k1 lam hlam m Q A hQ (mem_HG _) h
+
+/-- `double_mult_var` on secp256k1's pure-Python route, every valid `H`, `Q` -/
+theorem double_mult_entry_secp256k1_all (u v : ℤ) (P Q A : Point) (hP : AValid secp256k1_p cS P)
+    (hQ : AValid secp256k1_p cS Q) (h : doubleMultEntry (ctxOf EC.secp256k1) u P v Q = some A) :
+    AValid secp256k1_p cS A ∧ absA secp256k1_p cS A = u • absA secp256k1_p cS P + v • absA secp256k1_p cS Q :=
+  doubleMultEntry_secp256k1 u v P Q A hP (mem_HG _) hQ (mem_HG _) h
+
+/-- `ops_sub_hom_of_cofactor_one` at secp256k1, hypothesis-free: `Subtype.val` commutes with every operation of the lawful
+carrier and the raw `Btc.EC.ops secp256k1` the drivers run, `lift_x` included -/
+theorem ops_sub_hom_secp256k1 : OpsHom (opsSub secpOk) (EC.ops EC.secp256k1) (Subtype.val : SubPt secp256k1_p EC.secp256k1 → Point) :=
+  opsSub_hom secpOk secp256k1_h34 secp_hcof secp_delta
+
+/-- `ops_sub_liftX_is_ec_ops` at secp256k1, hypothesis-free -/
+theorem ops_sub_liftX_is_ec_ops_secp256k1 (x : ℤ) :
+    ((opsSub secpOk).liftX x).map Subtype.val = (EC.ops EC.secp256k1).liftX x :=
+  liftXSub_val_of_cofactor_one secpOk secp256k1_h34 secp_hcof secp_delta x
+
+/-- every reduced valid pair of secp256k1 (every key the API accepts, infinity) is in the lawful carrier -/
+theorem in_sub_secp256k1 {P : Point} (hv : AValid secp256k1_p cS P) (hr : RedA cS P) :
+    InSub secp256k1_p EC.secp256k1 P := inSub_of_cofactor_one secp_hcof hv hr
+end Secp256k1Unconditional
 
 end Props.C01
